@@ -6,7 +6,37 @@ pub(crate) struct Names {
     global_aliases: HashMap<String, (String, Span)>,
 }
 
+/// What [`Names`] records about one name, see [`Names::entry`].
+pub(crate) struct NamesEntry {
+    seen: Option<Span>,
+    global_alias: Option<(String, Span)>,
+}
+
 impl Names {
+    /// Everything recorded about `name`, so that it can be put back with
+    /// [`Names::restore_entry`] when the command declaring `name` is rejected.
+    pub(crate) fn entry(&self, name: &str) -> NamesEntry {
+        NamesEntry {
+            seen: self.seen.get(name).cloned(),
+            global_alias: name
+                .strip_prefix(GLOBAL_NAME_PREFIX)
+                .and_then(|stripped| self.global_aliases.get(stripped).cloned()),
+        }
+    }
+
+    pub(crate) fn restore_entry(&mut self, name: &str, entry: NamesEntry) {
+        match entry.seen {
+            Some(span) => self.seen.insert(name.to_owned(), span),
+            None => self.seen.remove(name),
+        };
+        if let Some(stripped) = name.strip_prefix(GLOBAL_NAME_PREFIX) {
+            match entry.global_alias {
+                Some(alias) => self.global_aliases.insert(stripped.to_owned(), alias),
+                None => self.global_aliases.remove(stripped),
+            };
+        }
+    }
+
     fn check(&mut self, name: String, new: Span) -> Result<(), Error> {
         if let Some(old) = self.seen.get(&name) {
             Err(Error::Shadowing(name, old.clone(), new))
